@@ -41,6 +41,7 @@ export const DEFAULT_FEATURES = {
   tuples: true,
   jsdoc: true,
   maxDepth: 4,
+  onlyRepresentableNumbers: false, // drop 1e21 (C01-lit-fixed-point) where it would only add noise
 };
 
 export class TypeGen {
@@ -132,7 +133,7 @@ export class TypeGen {
     return A.lit(this.rng.pick(STR_LITS));
   }
   numLit() {
-    return A.lit(this.rng.pick(NUM_LITS));
+    return A.lit(this.rng.pick(this.f.onlyRepresentableNumbers ? NUM_LITS.filter((n) => Math.abs(n) < 2 ** 53) : NUM_LITS));
   }
   scalarLeaf() {
     const r = this.rng;
@@ -438,9 +439,27 @@ export class TypeGen {
       [f.exclude ? 1 : 0, () => this.excludeType()],
       [f.nonJson ? 1 : 0, () => (r.chance(0.5) ? { k: "map", key: this.scalarLeaf(), val: this.type(depth - 1) } : { k: "set", el: this.scalarLeaf() })],
       [f.generics ? 1.5 : 0, () => this.genericInstance(depth)],
+      [f.generics ? 0.7 : 0, () => this.twoInstances(depth)],
+      [f.discriminated ? 0.7 : 0, () => this.siblingDiscUnions(depth)],
       [0.5, () => ({ k: "paren", t: this.type(depth - 1) })],
     ])();
     return t;
+  }
+  // two different instances of one generic next to each other (same tags, different payloads)
+  twoInstances(depth) {
+    const gens = this.decls.filter((d) => (d.d === "alias" || d.d === "iface") && d.params && d.params.length);
+    if (!gens.length) return this.siblingDiscUnions(depth);
+    const g = this.rng.pick(gens);
+    const inst = () => A.ref(g.name, g.params.map(() => this.scalarLeaf()));
+    return A.obj([A.prop("first", inst()), A.prop("second", inst()), A.prop("third", inst(), true)]);
+  }
+  // two discriminated unions over the same key and tag values whose variants carry different payloads
+  siblingDiscUnions(depth) {
+    const r = this.rng;
+    const key = r.pick(DISC_KEYS);
+    const vals = r.shuffle(DISC_VALS).slice(0, 2 + r.below(2));
+    const mk = () => A.union(vals.map((v) => A.obj([A.prop(key, A.lit(v)), A.prop("payload", this.scalarLeaf(), r.chance(0.2))])));
+    return A.obj([A.prop("left", mk()), A.prop("right", mk())]);
   }
   genericInstance(depth) {
     const gens = this.decls.filter((d) => (d.d === "alias" || d.d === "iface") && d.params && d.params.length);
@@ -566,7 +585,7 @@ export class TypeGen {
         const val = (d) =>
           r.wpick([
             [4, () => ({ e: "str", v: r.pick(STR_LITS) })],
-            [3, () => ({ e: "num", v: r.pick(NUM_LITS.filter((n) => n >= 0)) })],
+            [3, () => ({ e: "num", v: r.pick(NUM_LITS.filter((n) => n >= 0 && (!this.f.onlyRepresentableNumbers || n < 2 ** 53))) })],
             [2, () => ({ e: "bool", v: r.chance(0.5) })],
             [d > 0 && asConst ? 2 : 0, () => ({ e: "arr", items: [val(0), val(0)].slice(0, 1 + r.below(2)) })],
             [d > 0 ? 3 : 0, () => ({ e: "obj", props: r.shuffle(["p", "q", "r"]).slice(0, 1 + r.below(3)).map((n) => ({ name: n, v: val(d - 1) })) })],
